@@ -1,7 +1,7 @@
 (* C10 — unicast delivery, bounded forwarding, content preservation.  Property theorems only;
    proofs in ForwardProofs.v.  A frame is the record of the fields forwarding reads plus ff_rest,
    which stands for every byte outside TTL, flow flags and switch block. *)
-From Verif Require Import Prelude Gen SwitchLabel SwitchLabelProofs Table Control Forward ForwardProofs Translated.
+From Verif Require Import Prelude Gen SwitchLabel SwitchLabelProofs Table Control Forward ForwardProofs Translated Frame TranslatedDec.
 
 (* Tie to the code: ReduceTTL(1) as tabulated from the compiled code over all 256 TTL values,
    the TTL of a freshly built frame, and the message types that are handled as hop pings. *)
@@ -116,3 +116,16 @@ Theorem C10_source_flow_flags : forall fc flag,
   (forall other, Gen.go_FrameV1_HasFlowFlag fc other = true -> Gen.go_FrameV1_HasFlowFlag (Gen.go_FrameV1_SetFlowFlag fc flag) other = true).
 Proof. exact go_flow_flags. Qed.
 Print Assumptions C10_source_flow_flags.
+
+(* the translated source of FrameDataWithMargins (harness/gen_translate_dec.go): a frame is handed
+   to a link together with the link's margins exactly when the room exists in its pooled buffer —
+   an exact fit included — and the slice is the frame with that room around it; no request with
+   non-negative margins takes a slice out of bounds *)
+Theorem C10_source_margins : forall len lps psoff offset overhead,
+  (0 <= len)%Z -> (0 <= psoff)%Z -> (0 <= offset)%Z -> (0 <= overhead)%Z ->
+  Gen.go_FrameV1_FrameDataWithMargins len lps psoff offset overhead =
+    if ((offset <=? psoff)%Z && (psoff + len + overhead <=? lps)%Z)
+    then DOk [psoff - offset; psoff + len + overhead]%Z
+    else if (offset <=? psoff)%Z then DErr 2 else DErr 1.
+Proof. exact go_margins_spec. Qed.
+Print Assumptions C10_source_margins.
